@@ -309,6 +309,8 @@ struct Agg {
     strategies: BTreeMap<String, u64>,
     scenarios: BTreeMap<String, u64>,
     pairs_sum: u64,
+    kernel_async: u64,
+    alloc_modes: BTreeMap<String, u64>,
     samples: Vec<J>,
     bad: Vec<RunOut>,
     inconclusive: Vec<RunOut>,
@@ -329,6 +331,8 @@ impl Agg {
         self.switches += j.u64("switches");
         self.vt_ns += j.u64("vt_ns");
         self.pairs_sum += j.u64("pairs");
+        self.kernel_async += j.u64("kernel_async");
+        *self.alloc_modes.entry(format!("mode{}", j.u64("alloc_mode"))).or_default() += 1;
         let fp = format!("{}:{}", r.scenario, j.str("sched_fp"));
         if r.verdict == "ok" && j.u64("switches") >= 2 {
             self.nontrivial_fps.insert(fp.clone());
@@ -628,6 +632,8 @@ fn check_property(p: &Prop, tier: &str, runs_override: Option<u64>, only_scenari
         ("context_switches_total", nu(agg.switches)),
         ("switch_site_pairs_sum", nu(agg.pairs_sum)),
         ("sim_time_total_ns", nu(agg.vt_ns)),
+        ("kernel_async", nu(agg.kernel_async)),
+        ("allocator_modes", to_obj(&agg.alloc_modes)),
         ("runs_per_hour", nu((agg.runs as f64 / wall.max(0.001) * 3600.0) as u64)),
         ("seeds", obj(vec![("base", nu(base)), ("first", nu(seed_of(base, 0))), ("count_per_scenario", nu(total_runs / scen.len().max(1) as u64))])),
         ("determinism", obj(vec![("pairs", nu(det_pairs)), ("divergences", nu(det_div.len() as u64))])),
